@@ -252,6 +252,14 @@ class RInt:
                         self.check_sink(lhs, fn, locals_, "S1:pointer%s" % op)
                 if op in ("<<", "<<=", ">>") and "S4" in self.rules:
                     self.check_shift(n, fn, locals_)
+                if op in ("<", "<=", ">", ">=", "==", "!=") and "S6" in self.rules and fn["name"].startswith("operator") \
+                        and not (n.get("mac") or []):
+                    # operands of the comparison a relational operator returns: arithmetic on them must not wrap
+                    # (index differences of 32/64-bit numInGroup types are not promoted to int)
+                    if lhs is not None and has_arith(lhs):
+                        self.check_sink(lhs, fn, locals_, "S6:compared value")
+                    if rhs is not None and has_arith(rhs):
+                        self.check_sink(rhs, fn, locals_, "S6:compared value")
             elif k == "ArraySubscriptExpr" and "S1" in self.rules:
                 if is_ptr((n.get("base") or {}).get("t")):
                     self.check_sink(n.get("idx"), fn, locals_, "S1:subscript")
